@@ -23,6 +23,7 @@ type Tracer struct {
 	Cases  int
 	// bytes written per chunk, to balance
 	size []int64
+	once []map[string]bool
 }
 
 func NewTracer(dir string, chunks int) *Tracer {
@@ -35,6 +36,7 @@ func NewTracer(dir string, chunks int) *Tracer {
 		t.files = append(t.files, f)
 		t.ws = append(t.ws, bufio.NewWriterSize(f, 1<<20))
 		t.size = append(t.size, 0)
+		t.once = append(t.once, map[string]bool{})
 	}
 	return t
 }
@@ -49,6 +51,16 @@ func (t *Tracer) NextCase() {
 	}
 	t.cur = best
 	t.Cases++
+}
+
+// Once reports whether key is new for the current chunk (definitions that are
+// emitted once per chunk, e.g. a stream pool).
+func (t *Tracer) Once(key string) bool {
+	if t.once[t.cur][key] {
+		return false
+	}
+	t.once[t.cur][key] = true
+	return true
 }
 
 func (t *Tracer) Emit(e Ev) {
